@@ -58,7 +58,7 @@ type SatCase struct {
 func nOut(ins Instr, bits int) int {
 	if ins.Op == "ToBinary" {
 		if ins.N >= 6 {
-			return bits
+			return bits + (ins.N - 6)
 		}
 		return ins.N
 	}
@@ -77,7 +77,7 @@ func satExportOne(b *ProgBeh, field, builder string) SatCase {
 	}
 	sc := SatCase{ID: b.ID, Name: builder + " " + progString(b.Prog), Kind: builder, Op: ins.Op, N: ins.N}
 	if ins.Op == "ToBinary" && ins.N >= 6 {
-		sc.N = bits
+		sc.N = bits + (ins.N - 6)
 	}
 	m := 0
 	for _, in := range b.Prog {
@@ -121,10 +121,22 @@ func satExportOne(b *ProgBeh, field, builder string) SatCase {
 		if r.K == "c" {
 			v := new(big.Int).Mod(big.NewInt(int64(r.I)), mod)
 			sc.Args = append(sc.Args, []any{"c", int(v.Int64())})
-		} else {
+		} else if r.K != "t" {
 			w := wireOf(r)
 			sc.Args = append(sc.Args, []any{"w", w})
 			inputs[w] = true
+		}
+	}
+	if len(b.Prog) > 1 {
+		// several calls: the relation is that of the whole program (checked by the Go enumerator through the
+		// port of ApiSemantics); TLC's single-operation Sound does not apply
+		sc.Op, sc.Args = "", nil
+		for _, in := range b.Prog {
+			for _, r := range in.A {
+				if r.K == "p" || r.K == "s" {
+					inputs[wireOf(r)] = true
+				}
+			}
 		}
 	}
 	// rows in the spec's shape, and the wires each row mentions
